@@ -74,6 +74,15 @@ func keyOrigin(k ssa.Value, base ssa.Value, d int) (string, bool) {
 		if d > 8 {
 			return "", false
 		}
+		if v == base {
+			return "", true
+		}
+		join := func(p, name string) string {
+			if p == "" {
+				return name
+			}
+			return p + "." + name
+		}
 		switch x := v.(type) {
 		case *ssa.FieldAddr:
 			stt := underlying(x.X.Type().(*types.Pointer).Elem()).(*types.Struct)
@@ -82,13 +91,13 @@ func keyOrigin(k ssa.Value, base ssa.Value, d int) (string, bool) {
 				return name, true
 			}
 			if p, ok := container(x.X, d+1); ok {
-				return p + "." + name, true
+				return join(p, name), true
 			}
 		case *ssa.Field:
 			stt := underlying(x.X.Type()).(*types.Struct)
 			name := stt.Field(x.Field).Name()
 			if p, ok := container(x.X, d+1); ok {
-				return p + "." + name, true
+				return join(p, name), true
 			}
 		case *ssa.UnOp:
 			if x.Op == token.MUL {
@@ -144,6 +153,132 @@ func keyOrigin(k ssa.Value, base ssa.Value, d int) (string, bool) {
 	return p, true
 }
 
+// argOrigin: the position of base a value handed to a helper denotes (a field value, its address, or an element)
+func argOrigin(a ssa.Value, base ssa.Value) (string, bool) {
+	// reuse keyOrigin's container walk by asking for the origin of a fictitious ".Name" below a: emulate with a walk
+	var walk func(v ssa.Value, d int) (string, bool)
+	walk = func(v ssa.Value, d int) (string, bool) {
+		if d > 8 {
+			return "", false
+		}
+		if v == base {
+			return "", true
+		}
+		join := func(p, n string) string {
+			if p == "" {
+				return n
+			}
+			return p + "." + n
+		}
+		switch x := v.(type) {
+		case *ssa.FieldAddr:
+			n := underlying(x.X.Type().(*types.Pointer).Elem()).(*types.Struct).Field(x.Field).Name()
+			if p, ok := walk(x.X, d+1); ok {
+				return join(p, n), true
+			}
+		case *ssa.Field:
+			n := underlying(x.X.Type()).(*types.Struct).Field(x.Field).Name()
+			if p, ok := walk(x.X, d+1); ok {
+				return join(p, n), true
+			}
+		case *ssa.UnOp:
+			if x.Op == token.MUL {
+				return walk(x.X, d+1)
+			}
+		case *ssa.IndexAddr:
+			if p, ok := walk(x.X, d+1); ok {
+				return p + "[]", true
+			}
+		case *ssa.Alloc:
+			if refs := x.Referrers(); refs != nil {
+				for _, r := range *refs {
+					if st, ok := r.(*ssa.Store); ok && st.Addr == x {
+						if p, ok := walk(st.Val, d+1); ok {
+							return p, true
+						}
+					}
+				}
+			}
+		}
+		return "", false
+	}
+	return walk(a, 0)
+}
+
+// fnSinks: the stores into a table set (map updates, addTable calls) of a function
+func fnSinks(fn *ssa.Function) (keys []ssa.Value, blocks []*ssa.BasicBlock) {
+	for _, b := range fn.Blocks {
+		for _, ins := range b.Instrs {
+			switch x := ins.(type) {
+			case *ssa.MapUpdate:
+				keys, blocks = append(keys, x.Key), append(blocks, b)
+			case *ssa.Call:
+				if f := x.Call.StaticCallee(); f != nil && f.Name() == "addTable" && len(x.Call.Args) == 2 {
+					keys, blocks = append(keys, x.Call.Args[1]), append(blocks, b)
+				}
+			}
+		}
+	}
+	return
+}
+
+func reaches(a, b *ssa.BasicBlock) bool {
+	seen := map[*ssa.BasicBlock]bool{}
+	var w func(x *ssa.BasicBlock) bool
+	w = func(x *ssa.BasicBlock) bool {
+		for _, s := range x.Succs {
+			if s == b {
+				return true
+			}
+			if !seen[s] {
+				seen[s] = true
+				if w(s) {
+					return true
+				}
+			}
+		}
+		return false
+	}
+	return w(a)
+}
+
+// alwaysRuns: block b of fn (or the header of the loop it sits in) is passed on every path to a return
+func alwaysRuns(fn *ssa.Function, b *ssa.BasicBlock) bool {
+	domAllRets := func(h *ssa.BasicBlock) bool {
+		for _, r := range fn.Blocks {
+			if len(r.Instrs) == 0 {
+				continue
+			}
+			if _, ok := r.Instrs[len(r.Instrs)-1].(*ssa.Return); ok && !h.Dominates(r) {
+				return false
+			}
+		}
+		return true
+	}
+	for h := b; h != nil; h = h.Idom() {
+		if domAllRets(h) && (h == b || (reaches(b, h) && reaches(h, b))) {
+			return true
+		}
+	}
+	return false
+}
+
+// helperCovers: the paths (relative to parameter pi of the same-package helper fn) whose names the helper always
+// stores into the table set: "" (the parameter's own Name), "[]" (every element of a slice parameter), "[].Right" ...
+func helperCovers(fn *ssa.Function, pi int) []string {
+	if fn == nil || len(fn.Blocks) == 0 || pi >= len(fn.Params) {
+		return nil
+	}
+	var out []string
+	keys, blocks := fnSinks(fn)
+	for i, k := range keys {
+		if p, ok := keyOrigin(k, fn.Params[pi], 0); ok && alwaysRuns(fn, blocks[i]) {
+			out = append(out, p)
+		}
+	}
+	return out
+}
+
 func runC15(e *Engine, tier Tier) *PropRun {
 	astPkg := e.SPkgs[modPath+"/pkg/sql/ast"]
 	if astPkg == nil {
@@ -186,16 +321,26 @@ func runC15(e *Engine, tier Tier) *PropRun {
 		type sink struct {
 			key   ssa.Value
 			block *ssa.BasicBlock
+			arg   ssa.Value // helper call: the argument handed over, and the paths below it the helper stores
+			rel   []string
 		}
 		var sinks []sink
 		for _, b := range fn.Blocks {
 			for _, ins := range b.Instrs {
 				switch x := ins.(type) {
 				case *ssa.MapUpdate:
-					sinks = append(sinks, sink{x.Key, b})
+					sinks = append(sinks, sink{key: x.Key, block: b})
 				case *ssa.Call:
-					if f := x.Call.StaticCallee(); f != nil && f.Name() == "addTable" && len(x.Call.Args) == 2 {
-						sinks = append(sinks, sink{x.Call.Args[1], b})
+					f := x.Call.StaticCallee()
+					if f != nil && f.Name() == "addTable" && len(x.Call.Args) == 2 {
+						sinks = append(sinks, sink{key: x.Call.Args[1], block: b})
+					} else if f != nil && f.Pkg == fn.Pkg && f != fn {
+						// a helper of the same package that stores names found below one of its arguments
+						for i, a := range x.Call.Args {
+							if rel := helperCovers(f, i); len(rel) > 0 {
+								sinks = append(sinks, sink{block: b, arg: a, rel: rel})
+							}
+						}
 					}
 				}
 			}
@@ -234,30 +379,42 @@ func runC15(e *Engine, tier Tier) *PropRun {
 				// coverage: some sink whose key originates from this position; slices: inside a loop ranging over it
 				cov := "false"
 				for _, s := range sinks {
-					p, ok := keyOrigin(s.key, base, 0)
-					if !ok {
-						continue
+					var ps []string
+					if s.arg != nil {
+						if ap, ok := argOrigin(s.arg, base); ok {
+							for _, r := range s.rel {
+								if r == "" || strings.HasPrefix(r, "[") {
+									ps = append(ps, ap+r)
+								} else {
+									ps = append(ps, ap+"."+r)
+								}
+							}
+						}
+					} else if p, ok := keyOrigin(s.key, base, 0); ok {
+						ps = []string{p}
 					}
-					match := false
-					switch tp.Kind {
-					case "name":
-						match = p == tp.Path
-					case "ref":
-						match = p == tp.Path
-					case "refslice":
-						match = p == tp.Path+"[]"
-					case "joinright":
-						match = p == strings.Replace(tp.Path, "[].Right", "[].Right", 1) || p == strings.TrimSuffix(tp.Path, "[].Right")+"[].Right"
-					}
-					if !match {
-						continue
-					}
-					r := fr.blockReach[s.block]
-					if li := fr.loopOf(s.block); li != nil {
-						r = fr.blockReach[li.header]
-					}
-					if r != "" {
-						cov = sOr(cov, r)
+					for _, p := range ps {
+						match := false
+						switch tp.Kind {
+						case "name":
+							match = p == tp.Path
+						case "ref":
+							match = p == tp.Path
+						case "refslice":
+							match = p == tp.Path+"[]"
+						case "joinright":
+							match = p == strings.Replace(tp.Path, "[].Right", "[].Right", 1) || p == strings.TrimSuffix(tp.Path, "[].Right")+"[].Right"
+						}
+						if !match {
+							continue
+						}
+						r := fr.blockReach[s.block]
+						if li := fr.loopOf(s.block); li != nil {
+							r = fr.blockReach[li.header]
+						}
+						if r != "" {
+							cov = sOr(cov, r)
+						}
 					}
 				}
 				// obligation on every return: the case was taken => the position was collected
@@ -296,10 +453,10 @@ func runC15(e *Engine, tier Tier) *PropRun {
 	rs := e.verifyAll(fns, opts, post)
 	return &PropRun{
 		Results: rs, FUC: fucList(rs),
-		Claim: func(o *Obligation) bool { return o.Kind == "schema" },
+		Claim:       func(o *Obligation) bool { return o.Kind == "schema" },
 		Explanation: "Table part of the property. The table positions are enumerated from go/types by rule (spec table): every field of a statement type that is a TableName string, a TableReference, a []TableReference, or the Right side of a []JoinClause; JoinClause.Left is excluded because for joins after the first the parser stores a synthesised name there. For both table collectors (plain and qualified) and every position: the collector's type switch has a case for the statement type, and on every returning path through that case a store into the table set (or addTable call) whose key is read from that position is reached (slices: the loop ranging over the field is entered). Nested statements are reached through the generic Children() recursion, which C14 decides.",
-		NotCovered: []string{"column and function extraction (own(T) cases of the three other collectors: not built)", "that nothing else is inserted (aliases, synthesised names): only the positive direction is decided", "duplicate-freedom (results are map key sets, by construction)", "qualifier splitting in addTable"},
+		NotCovered:  []string{"column and function extraction (own(T) cases of the three other collectors: not built)", "that nothing else is inserted (aliases, synthesised names): only the positive direction is decided", "duplicate-freedom (results are map key sets, by construction)", "qualifier splitting in addTable"},
 		Assumptions: []string{"range-over-whole-slice template as in C14", "C14: Children() returns every child, so the recursion reaches nested statements"},
-		Extra: map[string]any{"table_position_obligations": nOb},
+		Extra:       map[string]any{"table_position_obligations": nOb},
 	}
 }
